@@ -33,6 +33,11 @@ def _metric(spec, thr, k):
         arg = {"threshold_at_tar": "tar"}.get(name, name.split("_")[-1])
         kw = {arg: np.asarray([0.25, 0.5, 0.8])}
         return name, kw, lambda o: np.asarray(getattr(o, name)(np.asarray([0.25, 0.5, 0.8])))
+    if name in ("sub-added", "sub-redefined"):
+        # metrics of a user subclass (see _build): one it adds, one it redefines (FNR in percent);
+        # names are resolved on the class of the object that is bootstrapped
+        mname = "miss_percent" if name == "sub-added" else "fnr"
+        return mname, dict(threshold=thr), lambda o: np.asarray(100.0 * np.asarray(_plain_fnr(o, thr)))
     if name == "auc":
         kw = dict(lower=0.0, upper=0.5)
         return name, kw, lambda o: np.asarray(o.auc(0.0, 0.5))
@@ -87,8 +92,36 @@ def _objects(draw, grouped=None):
     return d
 
 
+def _plain_fnr(o, thr):
+    from score_analysis import Scores
+
+    return Scores.fnr(o, thr)
+
+
+_SUBCLASS = {}
+
+
+def _subclass():
+    """A user subclass of Scores that adds a metric and redefines one."""
+    if "cls" not in _SUBCLASS:
+        from score_analysis import Scores
+
+        class ClinicScores(Scores):
+            def miss_percent(self, threshold):
+                return 100.0 * np.asarray(Scores.fnr(self, threshold))
+
+            def fnr(self, threshold):  # this application reports the miss rate in percent
+                return 100.0 * np.asarray(Scores.fnr(self, threshold))
+
+        _SUBCLASS["cls"] = ClinicScores
+    return _SUBCLASS["cls"]
+
+
 def _build(d, shift=0.0):
     from score_analysis import GroupScores, Scores
+
+    if d.get("subclass"):
+        Scores = _subclass()
 
     pos = np.asarray(d["pos"], dtype=float) + shift
     neg = np.asarray(d["neg"], dtype=float) + shift
@@ -105,6 +138,9 @@ def _cases(draw):
     d = draw(_objects())
     metrics = GROUP_METRICS if d["groups"] else SCORE_METRICS
     spec = draw(st.sampled_from(metrics))
+    if not d["groups"] and draw(st.integers(0, 7)) == 0:
+        spec = draw(st.sampled_from(["sub-added", "sub-redefined"]))
+        d["subclass"] = True
     shape = draw(st.sampled_from([(), (1,), (3,), (2, 2)]))
     thr = draw(gen.threshold_values(d["pos"] + d["neg"], gen.shape_size(shape), allow_inf=False))
     builtin = draw(st.sampled_from(GROUP_BUILTIN if d["groups"] else BUILTIN))
@@ -407,4 +443,4 @@ PROP = Prop(
                  "for the wiring"],
 )
 
-RULE_EXTRA = ('threshold_at_* metrics whose targets are one shared float64 array; SINGLE_PASS_SAMPLE_THRESHOLD re-assigned at run time (3/5/8) and by_group on group-less objects, both replayed through the configuration the documentation equates them with; samplers and metrics as function / lambda / partial / bound method / callable object / dataclass instance; metrics scaled by 1e-8..1e6; NaN-producing metric; smoothing configurations; independent re-implementation of the documented formulas (C13) as reference; clause config_sequences: 2-4 bootstrap configurations in a row on one object (3-12 or 100-125 scores per class) against fresh equal objects under the same seed.')
+RULE_EXTRA = ('objects of a user subclass of Scores that adds / redefines a metric (names resolve on the class of the object while the built-in samplers return plain Scores); threshold_at_* metrics whose targets are one shared float64 array; SINGLE_PASS_SAMPLE_THRESHOLD re-assigned at run time (3/5/8) and by_group on group-less objects, both replayed through the configuration the documentation equates them with; samplers and metrics as function / lambda / partial / bound method / callable object / dataclass instance; metrics scaled by 1e-8..1e6; NaN-producing metric; smoothing configurations; independent re-implementation of the documented formulas (C13) as reference; clause config_sequences: 2-4 bootstrap configurations in a row on one object (3-12 or 100-125 scores per class) against fresh equal objects under the same seed.')
